@@ -288,6 +288,19 @@ def run_cases(exe, cases, d, keep=False, callback=None):
         rc, out, err = run_scenario(exe, lines, cwd=d)
         c["_nsteps"] = sum(1 for l in out if l.startswith("STEP"))
         F = judge(c, d, out, rc, err)
+        # which fields of the state differ, at some stop step, from what the configuration alone gives
+        try:
+            pre_ = os.path.join(d, "c%s_" % c["id"])
+            z = R.state_fields(pre_ + "Z.colvars.state")
+            ch = set()
+            if z is not None and "text" in c["fmts"]:
+                for K in c["Ks"]:
+                    a = R.state_fields(pre_ + "a_%d_text.colvars.state" % K)
+                    if a:
+                        ch.update(k for k in a if a.get(k) != z.get(k))
+            c["_state_changed"] = sorted(ch)
+        except Exception:
+            c["_state_changed"] = []
         extra = None
         if callback is not None:
             try:
